@@ -414,5 +414,85 @@ var semaBubbleProp = vp.Register(vp.Prop[SemaCase]{
 	Check: checkSemaBubble,
 })
 
-func TestBubbleOnce(t *testing.T) { vp.Run(t, onceBubbleProp) }
+// BurstCase: many goroutines start Acquire at the same instant on a fresh
+// semaphore with fewer slots than goroutines; then every context is cancelled.
+type BurstCase struct {
+	Cap    int `json:"cap"`
+	G      int `json:"goroutines"`
+	Rounds int `json:"rounds"`
+}
+
+func checkSemaBurst(c BurstCase) error {
+	v := &verdict{}
+	runBubble("c17.sema-burst", c, "Acquire is blocked on something other than the semaphore's slots or its context", func() {
+		for round := 0; round < c.Rounds; round++ {
+			s := syncutil.NewChanSemaphore(uint(c.Cap))
+			ctx, cancel := context.WithCancel(context.Background())
+			var mu sync.Mutex
+			holding, returned := 0, 0
+			var errs []error
+			rel := make(chan struct{})
+			var goFlag atomic.Bool
+			for i := 0; i < c.G; i++ {
+				go func() {
+					for !goFlag.Load() {
+					}
+					err := s.Acquire(ctx)
+					mu.Lock()
+					returned++
+					if err != nil {
+						errs = append(errs, err)
+						mu.Unlock()
+						return
+					}
+					holding++
+					mu.Unlock()
+					<-rel
+					s.Release()
+				}()
+			}
+			goFlag.Store(true)
+			synctest.Wait()
+			mu.Lock()
+			if holding != min(c.Cap, c.G) {
+				v.fail("round %d: %d goroutines raced for %d slots with a live context: %d hold a slot at quiescence, want %d", round, c.G, c.Cap, holding, min(c.Cap, c.G))
+			}
+			if len(errs) != 0 {
+				v.fail("round %d: Acquire returned %v with a live context", round, errs[0])
+			}
+			mu.Unlock()
+			cancel()
+			synctest.Wait()
+			mu.Lock()
+			if returned != c.G {
+				v.fail("round %d: after cancelling the context %d of %d Acquire calls have returned: a waiter ignores its context while no slot is free", round, returned, c.G)
+			}
+			for _, e := range errs {
+				if e != context.Canceled {
+					v.fail("round %d: a cancelled waiter returned %v, want context.Canceled", round, e)
+				}
+			}
+			mu.Unlock()
+			close(rel)
+			synctest.Wait()
+		}
+	})
+	vp.EvalN("c17.sema-burst-round", int64(c.Rounds))
+	vp.Class("sema-burst:case")
+	vp.NonTrivialStr("c17.sema-burst", fmt.Sprintf("%+v", c))
+	vp.Sample("sema-burst", c)
+	return v.err()
+}
+
+var semaBurstProp = vp.Register(vp.Prop[BurstCase]{
+	Kind: "c17.sema-burst", Base: 1500,
+	Gen: func(t *rapid.T) BurstCase {
+		cp := rapid.IntRange(0, 3).Draw(t, "cap")
+		return BurstCase{Cap: cp, G: rapid.IntRange(cp+1, 10).Draw(t, "goroutines"), Rounds: 20}
+	},
+	Check: checkSemaBurst,
+})
+
+func TestBubbleBurst(t *testing.T) { vp.Run(t, semaBurstProp) }
+func TestBubbleOnce(t *testing.T)  { vp.Run(t, onceBubbleProp) }
 func TestBubbleSema(t *testing.T) { vp.Run(t, semaBubbleProp) }
